@@ -14,6 +14,8 @@ pub type LId = u32;
 pub enum Ev {
     Deliver(MsgId),
     Timer,
+    /// batch k becomes available in the node's store (what the mempool's processor does)
+    Batch(u8),
 }
 
 fn canon_qc(qc: &QC) -> QC {
@@ -239,6 +241,8 @@ pub struct LocalKey {
     pub snap: CoreSnapshot,
     pub stored: BTreeMap<Digest, u64>,
     pub parked: BTreeMap<Digest, u64>,
+    /// payload batches present in the store
+    pub batches: BTreeSet<u8>,
     /// statically unacceptable blocks to which the node nevertheless reacted
     pub odd: BTreeSet<Digest>,
     pub hist: Hist,
